@@ -65,6 +65,8 @@ def run_one(ctx, profile, seed, run, ops=None, cfg=None, keep_ops=True):
                 out = execute(w, op)
                 with ctx.seams.observing():
                     profile.after(w, op, out)
+                if w.deferred is not None:
+                    raise w.deferred
                 res.steps += 1
                 step += 1
             with ctx.seams.observing():
@@ -103,6 +105,7 @@ def run_one(ctx, profile, seed, run, ops=None, cfg=None, keep_ops=True):
     res.kind_seq_hash = hashlib.sha256("|".join(kinds).encode()).hexdigest()[:16]
     res.state_hash = w.m.state_hash()
     res.tail = list(w.log.tail[-8:])
+    res.extras = getattr(w, "extras", None)
     return res
 
 
